@@ -179,7 +179,10 @@ def isoVerdict (t : Transition) : String :=
   let embOk := t.pre.embDb == t.post.embDb
   if !connsOk then "rej:conn" else if !embOk then "rej:embedded" else
   if n == b "flushall" then "na" else
-  if (allDbIdx t).all fun j => j == t.ctx.db || dbOrEmpty t.pre j == dbOrEmpty t.post j then "adm" else "rej"
+  -- pointer classes are numbered over the whole dump: a new shared object in the selected database shifts the numbers
+  -- elsewhere, so every other database is compared with its classes renumbered on its own
+  let own (d : Db) : Db := (((renumberOids { dbs := [(0, d)], mem := 0 }).dbs.get 0).getD d)
+  if (allDbIdx t).all fun j => j == t.ctx.db || own (dbOrEmpty t.pre j) == own (dbOrEmpty t.post j) then "adm" else "rej"
 
 def rowOf (name : Bytes) : Option Gen.CmdRow :=
   Gen.commandTable.find? fun r => r.sub == "" && b r.name == toLower name
